@@ -27,13 +27,29 @@ impl EventLog {
     }
 
     pub fn append(&self, event: &Event) -> io::Result<()> {
+        #[cfg(rip_verif)]
+        rip_kernel::verif::point("log.before_lock");
         let mut writer = self.writer.lock().expect("event log mutex");
+        #[cfg(rip_verif)]
+        rip_kernel::verif::point("log.locked");
         let line = serde_json::to_string(event)
             .map_err(|err| io::Error::new(io::ErrorKind::InvalidData, err))?;
         writer.write_all(line.as_bytes())?;
+        #[cfg(rip_verif)]
+        rip_kernel::verif::point("log.body_written");
         writer.write_all(b"\n")?;
+        #[cfg(rip_verif)]
+        rip_kernel::verif::point("log.nl_written");
         writer.flush()?;
+        #[cfg(rip_verif)]
+        rip_kernel::verif::point("log.flushed");
         Ok(())
+    }
+
+    /// Whether the writer mutex is free right now (verification harness: enabledness probe).
+    #[cfg(rip_verif)]
+    pub fn verif_writer_free(&self) -> bool {
+        self.writer.try_lock().is_ok()
     }
 
     pub fn replay(&self) -> io::Result<Vec<Event>> {
